@@ -527,6 +527,16 @@ func (e *env) runSrv(args string) (tags, a, outs string) {
 	}
 	var o stepObs
 	o.req = req
+	warm := int64(-1)
+	if len(t) > 6 && (t[5] != "0" || t[6] != "0") {
+		// the same request while its cookie's key is the current one: the listener must answer
+		// (and has then seen that key before it grows old)
+		if len(t) > 4 && t[4] == "1" {
+			warm = int64(len(e.toServerSCION(req)))
+		} else {
+			warm = int64(len(e.toServer(req)))
+		}
+	}
 	if len(t) > 6 {
 		if h := lib.ParseI(t[5]); h != 0 {
 			d := time.Duration(h) * time.Hour
@@ -585,7 +595,7 @@ func (e *env) runSrv(args string) (tags, a, outs string) {
 		tags += ",nt"
 	}
 	return tags, a, lib.L(lib.I(1), lib.B(req), lib.I(int64(len(o.replies))), rep, lib.B(o.repNonce), lib.B(o.repCT),
-		lib.Bool(o.repAuthOK), lib.B(o.repPlain), lib.L(o.repCookies...), lib.B(c2s), lib.B(s2c), lib.I(e.noteCurrent()), lib.Bool(o.openable))
+		lib.Bool(o.repAuthOK), lib.B(o.repPlain), lib.L(o.repCookies...), lib.B(c2s), lib.B(s2c), lib.I(e.noteCurrent()), lib.Bool(o.openable), lib.I(warm))
 }
 
 func genSrv(r *lib.Rng, tier string) (js []job) {
